@@ -384,6 +384,20 @@ def stream_has_terminal(data: bytes) -> bool:
     return len(rest) >= 16 and int.from_bytes(rest[8:16], "big") > 2**32
 
 
+def stream_is_malformed(data: bytes) -> bool:
+    """Whether the receive loop meets a frame that is not an RPC request (before any close request)."""
+    frames, rest = parse_frames(data)
+    for _cid, body in frames:
+        if body is None:
+            return False
+        try:
+            if not isinstance(pickle.loads(body), RPCCall):
+                return True
+        except Exception:
+            return True
+    return len(rest) >= 16 and int.from_bytes(rest[8:16], "big") > 2**32
+
+
 class ConnSim:
     """One real `RPCServerConnection` under harness control, with the script it is driven by."""
 
@@ -402,6 +416,7 @@ class ConnSim:
         self.invoked: list = []  # tags in invocation order (this connection)
         self.seen_started = 0
         self.seen_written = 0
+        self.parsed_upto = 0
         self.seen_cancelled = 0
         self.replies: list = []  # (call id, kind, payload)
         self.injected: dict = {}  # tag -> ("ok", value) | ("raise", idx)
@@ -498,11 +513,9 @@ class ConnSim:
                 self.invoked.append(tag)
                 new_inv.append(str(self.tags[tag]))
         self.seen_started = len(started)
-        frames, _ = parse_frames(bytes(self.tr.data))
-        new_wr = []
-        for cid, body in frames[self.seen_written:]:
-            new_wr.append((cid, body))
-        self.seen_written = len(frames)
+        frames, rest = parse_frames(bytes(self.tr.data[self.parsed_upto:]))
+        self.parsed_upto = len(self.tr.data) - len(rest)
+        new_wr = list(frames)
         wr_toks = []
         for cid, body in new_wr:
             kind, payload = reply_kind(body)
@@ -704,6 +717,10 @@ async def finish_all(r, sims: list[ConnSim]):
                 await sim.apply("d")
         if not sim.eof and not sim.task.done():
             await sim.apply("e")
+        for _ in range(200):  # every big reply queued behind the first fills the buffer again
+            if not sim.paused or sim.task.done():
+                break
+            await sim.apply("d")
         # the implementation may still have handlers the model does not know of: they would hang here
         try:
             await asyncio.wait_for(asyncio.shield(sim.task), HANG_TIMEOUT)
@@ -1081,6 +1098,12 @@ def plain_sim(handler, newtag, ncalls: int):
     return sim, bytes(data), tags
 
 
+async def complete_if_pending(sim: ConnSim, arg):
+    """Complete a handler unless the implementation already cancelled it (a mutant may)."""
+    if arg[0] in sim.pending_tags():
+        await sim.apply("c", arg)
+
+
 async def fault_families(ctx, r, newtag, *, check):
     """Writer loss with every ConnectionError subclass, raised by `write` and by `drain`, while the send loop
     is idle, waits for a paused writer, or waits behind a reply bigger than the buffer, with other calls in
@@ -1095,12 +1118,12 @@ async def fault_families(ctx, r, newtag, *, check):
                     await sim.apply("b", data)
                     if state == "paused":
                         await sim.apply("p")
-                        await sim.apply("c", (tags[1], "r"))
+                        await complete_if_pending(sim, (tags[1], "r"))
                     elif state == "big":
-                        await sim.apply("c", (tags[1], "R"))
+                        await complete_if_pending(sim, (tags[1], "R"))
                     await sim.apply("l", (cls, site))
-                    await sim.apply("c", (tags[0], after))  # a reply attempted on the lost writer
-                    await sim.apply("c", (tags[2], "r"))
+                    await complete_if_pending(sim, (tags[0], after))  # a reply attempted on the lost writer
+                    await complete_if_pending(sim, (tags[2], "r"))
                     await finish_all(r, [sim])
                     await check([sim], [data], handler)
     for n in (1, 2, 3):
@@ -1112,10 +1135,10 @@ async def fault_families(ctx, r, newtag, *, check):
                 await sim.apply("b", data)
                 if paused:
                     await sim.apply("p")
-                await sim.apply("c", (tags[pos], "k"))
+                await complete_if_pending(sim, (tags[pos], "k"))
                 for t in tags:
                     if t != tags[pos]:
-                        await sim.apply("c", (t, "r"))
+                        await complete_if_pending(sim, (t, "r"))
                 if paused:
                     await sim.apply("d")
                 await finish_all(r, [sim])
@@ -1155,8 +1178,10 @@ async def correspond(ctx):
     ctx.stats.rule = (
         "server: generated request streams (exposed and non-exposed names, non-binding arguments, reused and extreme "
         "call ids, close / non-call / bad-header frames anywhere), cut into whole/random/byte-wise chunks, interleaved "
-        "on 1-3 connections with handler completions in harness-chosen order (result, UsageError family, internal, "
-        "unpicklable), writer pause/drain/loss, stop, EOF/reset; plus EOF, reset, garbage and a split at every byte "
+        "on 1-3 connections with handler completions in harness-chosen order (result, result bigger than the "
+        "transport buffer, UsageError family, internal, CancelledError from inside, unpicklable), writer pause/drain, "
+        "writer loss with ConnectionResetError/BrokenPipeError/ConnectionAbortedError raised by write or by drain "
+        "(idle, waiting on a paused writer, waiting behind a big reply, with calls in flight), stop, EOF/reset; plus EOF, reset, garbage and a split at every byte "
         "offset of short streams; non-trivial = at least one handler ran or one reply was written; distinct by event "
         "script.  framing: message lists with truncation/garbage tails under all chunkings; allowed: every attribute "
         "name of DirectorHandler and derived names; failure_class: 16 exception classes x debug flag; client: scripts "
@@ -1353,6 +1378,9 @@ def decoded_calls(sim: ConnSim) -> list[tuple[int, dict | None]]:
 def oracle_conn(ctx, sim: ConnSim, handler: Handler, where: str):
     """Properties of one finished connection, decided from what the harness fed and recorded."""
     detail = {"where": where, "events": [e[:60] for e in sim.events][:80]}
+    script_size = sum(len(a) for _t, a in sim.impl_events if isinstance(a, str))
+    if script_size < 4_000_000:  # the exact script: `./check C16 --replay <file>` applies it to the real code again
+        detail["replay"] = {"impl_events": sim.impl_events, "tags": {str(t): i for t, i in sim.tags.items()}}
     if sim.hung:
         ctx.finding(Finding(PID, "serve-hangs", "serve() does not end after the peer is gone and all handlers "
                             "completed", detail))
@@ -1362,6 +1390,11 @@ def oracle_conn(ctx, sim: ConnSim, handler: Handler, where: str):
     allowed_status = {"done", "fail:badHeader", "fail:notCall"} | ({"fail:unpicklable"} if injected_unpicklable else set())
     if status not in allowed_status:
         ctx.finding(Finding(PID, "serve-unexpected-end", f"serve() ended with {status}", detail))
+    mine_cancelled = [t for t in getattr(handler, "cancelled", []) if sim.mine(t)]
+    if mine_cancelled and not injected_unpicklable and not stream_is_malformed(bytes(sim.fed)):
+        ctx.finding(Finding(PID, "handlers-cancelled-without-protocol-violation",
+                            f"{len(mine_cancelled)} handler(s) were cancelled although every request arrived in full "
+                            "and the peer sent nothing malformed (a vanished peer must not cost a handler)", detail))
     if handler.forbidden:
         ctx.finding(Finding(PID, "non-exposed-procedure-called",
                             f"a procedure without @allow_rpc was entered: {handler.forbidden[:3]}", detail))
@@ -1715,8 +1748,39 @@ async def search(ctx):
     }
 
 
+async def replay_script(ctx, script: dict, sig: str) -> dict:
+    """Apply a recorded event script to a fresh real connection and run the oracle on it."""
+    handler = Handler()
+    sim = ConnSim(handler, 0)
+    sim.frames, sim.hung = [], False
+    sim.tags = {int(t): i for t, i in script["tags"].items()}
+    await asyncio.wait_for(settle(), TIMEOUT)
+    for tok, arg in script["impl_events"]:
+        if tok == "b":
+            await sim.apply("b", bytes.fromhex(arg))
+        elif tok == "c":
+            tag, out = arg
+            if tag in handler.futs and not handler.futs[tag].done():
+                await sim.apply("c", (tag, out))
+        elif tok == "l":
+            await sim.apply("l", tuple(arg) if arg else None)
+        elif (tok == "d" and not sim.paused) or (tok == "p" and sim.paused):
+            continue
+        else:
+            await sim.apply(tok)
+    await finish_all(ctx.rng("replay"), [sim])
+    oracle_conn(ctx, sim, handler, "replay")
+    return {"reproduced": any(f.signature == sig for f in ctx.findings), "signature": sig,
+            "findings": [[f.signature, f.what] for f in ctx.findings],
+            "observed": {"events": [e[:60] for e in sim.events], "replies": [(c, k) for c, k, _p in sim.replies],
+                         "cancelled_handlers": list(handler.cancelled), "serve": serve_status(sim.task)}}
+
+
 async def replay(ctx, detail):
     sig = detail.get("signature", "")
+    script = detail.get("detail", {}).get("replay")
+    if script:
+        return await replay_script(ctx, script, sig)
     if sig == "server_exactly_once_negation":
         return {**(await replay_drop_after_eof()), "signature": sig}
     if sig == "client_pairing_negation":
